@@ -32,6 +32,50 @@ class CM:
         return False
 
 
+class Overlap:
+    """a SECOND inspector on another thread, inside its own extraction (with other options) while the first one is in the
+    middle of extracting a blocked thread: the first inspector's hook for CM starts it and waits until it is inside"""
+    active = None
+
+    def __init__(self):
+        self.started = False
+        self.b_inside, self.a_done = threading.Event(), threading.Event()
+        self.thread = None
+        self.b_result = None
+
+    def run_b(self):
+        g = _b_target()
+        next(g)
+        self.b_result = stackscope.extract(g, with_contexts=False, recurse_child_tasks=True)
+
+
+def _b_target():
+    with CM(-1):
+        yield
+
+
+def _b_hook(frame, next_inner):
+    ov = Overlap.active
+    if ov is not None:
+        ov.b_inside.set()
+        ov.a_done.wait(TIMEOUT)
+    return None
+
+
+def _cm_hook(mgr, context):
+    ov = Overlap.active
+    if ov is None or ov.started or threading.current_thread() is ov.thread:
+        return
+    ov.started = True
+    ov.thread = threading.Thread(target=ov.run_b, daemon=True)
+    ov.thread.start()
+    ov.b_inside.wait(TIMEOUT)
+
+
+stackscope.elaborate_frame.register(_b_target)(_b_hook)
+stackscope.elaborate_context.register(CM)(_cm_hook)
+
+
 class Target:
     """the racing target:  while flag: with CM(): gate(); gate()  /  gate()
     Every checkpoint is a C-level blocking call (lock.acquire) made DIRECTLY by the inspected frame, so that the frame
@@ -449,11 +493,20 @@ def mode_blocked(data):
                 if mode == "finished":
                     ev.set()
                     t.join(TIMEOUT)
+                # every other time a second inspector is inside an extraction of its own while this one goes on
+                ov = Overlap.active = Overlap() if (mode == "alive" and nm >= 1 and (depth + nm) % 2 == 0) else None
                 with warnings.catch_warnings(record=True) as wl:
                     warnings.simplefilter("always")
                     st = stackscope.extract(t)
                 out["n"] += 1
                 bad = []
+                if ov is not None:
+                    ov.a_done.set()
+                    if ov.thread is not None:
+                        ov.thread.join(TIMEOUT)
+                        if ov.b_result is None or any(f.contexts for f in ov.b_result.frames):
+                            bad.append("the second inspector (with_contexts=False) got contexts / no result")
+                    Overlap.active = None
                 if mode != "alive":
                     if st.frames or st.error is not None:
                         bad.append("%s thread: frames %s error %r" % (mode, [f.funcname for f in st.frames], st.error))
